@@ -17,8 +17,15 @@ C->S : (main) conversions built from option classes: the source dataset is
        --copy-info; convert-chunks runs as a sub-process (sharded flush in
        the exit handler), also from an http://127.0.0.1 source; both datasets
        are read back by fresh accessors; Trace_Pipeline judges
-       ConvertVoxelsDiffer (every scale, every chunk, after the documented
-       type conversion), SourceChanged, SuccessBut*, RepeatChangedContents.
+       ConvertVoxelsDiffer (every scale, every chunk of EVERY chunking the
+       destination info declares, after the documented type conversion),
+       SourceChanged, SuccessBut*, RepeatChangedContents.  Sharded
+       destinations are additionally read by a reader written from the format
+       text: the .shard files are re-encoded by harness/parsers.parse_shard and
+       TLC locates every chunk with ShardFormat!SpecLookup under its
+       compressed Morton code (ConvertSpecReaderDiffers).  Remote sources are
+       served by a loopback server, plain and sharded multi-scale (scales that
+       share shard numbers and chunk identifiers).
 """
 import json
 
@@ -27,7 +34,10 @@ from .. import pipeline_driver as pd
 from .. import tlc
 
 LEVEL = "model_checking"
-RULE = ("a conversion is non-trivial when convert-chunks exited 0 on a source with >= 1 readable scale "
+RULE = ("(sources: produced by the real tools from volumes or slice stacks, optionally re-tiled by hand "
+        "with further chunk sizes; destinations: single or several chunk_sizes per scale, plain or "
+        "sharded with bit triples on power-of-two and other chunk grids) "
+        "a conversion is non-trivial when convert-chunks exited 0 on a source with >= 1 readable scale "
         "and source and destination differ in encoding, data type, file layout or sharding, or the "
         "source is remote, or the step is repeated; distinct = distinct (source class, destination "
         "class, data-type pair, channels, scales, copy/keep, remote, repeated) tuples")
@@ -60,7 +70,9 @@ def conversion_classes(ctx):
                 "src_bs": "-", "dst_bs": "-",        # compressed_segmentation block sizes ("bs4", "bs16x8x4")
                 "shape": None, "voxel": None,        # fixed volume geometry (else drawn per family)
                 "kind": None, "triple": None, "shard_enc": None, "shard_index_enc": None,
-                "slices": None, "rgb": False, "slice_format": "png"}   # source built from a slice stack
+                "slices": None, "rgb": False, "slice_format": "png",   # source built from a slice stack
+                "rechunk": "-",     # source re-tiled with further chunk sizes ("cs4", "cs8x4x8,4")
+                "dst_cs": "-"}      # further chunk sizes declared by the destination info
         base.update(kw)
         out.append(base)
 
@@ -185,6 +197,38 @@ def conversion_classes(ctx):
         dst_enc="compressed_segmentation", method="majority")
     add(src_dtype="uint16", slices="SPL", src_sh="s110", iso=True, dst_sh="nosh", slice_format="tiff")
     add(src_dtype="uint8", slices="PIR", shape=[6, 6, 40], voxel=[1.0, 1.0, 4.0], repeat=True)
+    # 14. SEVERAL chunk_sizes per scale (allowed by the format; convert-chunks writes every
+    #     chunking of the destination info): the source is re-tiled by hand, the destination
+    #     info lists the same chunkings (later ones smaller / non-cubic than the first)
+    mc2 = dict(shape=[24, 20, 18], voxel=[1.0, 1.0, 1.0], tgt=8)
+    add(src_dtype="uint16", rechunk="cs4", dst_cs="cs4", **mc2)
+    add(src_dtype="uint8", rechunk="cs4", copy="copy", **mc2)
+    add(src_dtype="uint8", rechunk="cs4x2x8,4", dst_cs="cs4x2x8,4", dst_dtype="uint16", **mc2)
+    add(src_dtype="uint8", rechunk="cs4,2x4x4", dst_cs="cs2x4x4", **mc2)       # subset of the source's chunkings
+    add(src_dtype="uint32", rechunk="cs4", dst_cs="cs4", src_type="segmentation", dst_type="segmentation",
+        dst_enc="compressed_segmentation", dst_bs="bs4", kind="blobs", method="majority", **mc2)
+    add(src_dtype="uint16", rechunk="cs8", dst_cs="cs8", repeat=True,
+        shape=[40, 12, 9], voxel=[1.0, 1.0, 1.0], tgt=16)
+    # 15. sharded destinations read back by a reader written from the format text as well
+    #     (oracle:ConvertSpecReaderDiffers; evaluated for every sharded destination of <= 450
+    #     chunks): chunk grids that are not powers of two with bit triples that leave a minishard
+    #     in the middle of a shard unused
+    add(src_dtype="uint8", dst_sh="s110", iso=True, shape=[20, 20, 20], voxel=[1.0, 1.0, 1.0], tgt=4,
+        triple=[3, 3, 3], shard_enc="raw")
+    add(src_dtype="uint16", dst_sh="s110", iso=True, shape=[20, 12, 20], voxel=[1.0, 1.0, 1.0], tgt=4,
+        triple=[2, 2, 1], shard_enc="gzip", dst_dtype="uint32")
+    add(src_dtype="uint8", src_sh="s110", copy="copy", iso=True, shape=[20, 20, 12], voxel=[1.0, 1.0, 1.0],
+        tgt=4, triple=[3, 3, 3], shard_enc="gzip")
+    add(src_dtype="uint8", dst_sh="s110", iso=True, shape=[12, 20, 20], voxel=[1.0, 1.0, 1.0], tgt=4,
+        triple=[2, 3, 2], shard_enc="raw", shard_index_enc="gzip")
+    # 16. REMOTE sharded multi-scale sources whose scales use the same shard numbers with the same
+    #     chunk identifiers (all chunks full size), and a remote plain multi-scale source
+    rs = dict(src_sh="s110", iso=True, remote=True, shape=[16, 16, 16], voxel=[1.0, 1.0, 1.0], tgt=4,
+              triple=[1, 3, 2])
+    add(src_dtype="uint8", copy="copy", shard_enc="raw", **rs)
+    add(src_dtype="uint16", dst_sh="nosh", shard_enc="gzip", **rs)
+    add(src_dtype="uint8", dst_dtype="uint32", **dict(rs, triple=[0, 2, 3], shape=[32, 16, 16]))
+    add(src_dtype="uint8", remote=True, shape=[16, 16, 16], voxel=[1.0, 1.0, 1.0], tgt=4, dst_dtype="uint16")
     return out
 
 
@@ -230,10 +274,12 @@ def prog_of(rng, k):
         cmds.append(C("Edit", "A", enc=k["src_bs"], sh="keep"))
     cmds += [C("Slices", "A", code=k["slices"]) if k["slices"] else C("Vol", "A"),
              C("Compute", "A", m=k["method"])]
+    if k["rechunk"] != "-":
+        cmds.append(C("Rechunk", "A", m=k["rechunk"]))
     if k["copy"] == "keep":
         cmds.append(C("GenScales", "B", src="A", type=k["dst_type"], enc=k["dst_enc"], max=k["dst_max"]))
-        if k["dst_dtype"] != "-" or k["dst_sh"] != "keep" or k["dst_bs"] != "-":
-            cmds.append(C("Edit", "B", type=k["dst_dtype"], sh=k["dst_sh"], enc=k["dst_bs"]))
+        if k["dst_dtype"] != "-" or k["dst_sh"] != "keep" or k["dst_bs"] != "-" or k["dst_cs"] != "-":
+            cmds.append(C("Edit", "B", type=k["dst_dtype"], sh=k["dst_sh"], enc=k["dst_bs"], m=k["dst_cs"]))
     conv = C("Convert", "B", src="A", copy=k["copy"])
     cmds.append(conv)
     if k["repeat"]:
@@ -283,7 +329,12 @@ def run(ctx):
         "clip for integer targets",
         "a conversion that exits with a non-zero status makes no claim about the destination (recorded "
         "as DRIFT design:ExitCode and in nonzero_exit_conversions); the source must still be unchanged",
-        "source and destination are read back in-process with fresh accessors of the package under test",
+        "source and destination are read back in-process with fresh accessors of the package under test; "
+        "sharded destinations of <= 450 chunks also by the format-level reader (SpecLookup in TLC; the "
+        "harness decodes each stored payload with the package's chunk decoder, using its own compressed "
+        "Morton code only to know the chunk extent of a stored identifier)",
+        "datasets with several chunk_sizes per scale are produced by a harness action (Rechunk) that "
+        "re-tiles a tool-produced dataset through the package's public PrecomputedIO API",
         "TLC 1.8 evaluates the specification faithfully; the driver only records and re-encodes",
     ]
     # --- M -----------------------------------------------------------------
@@ -323,7 +374,7 @@ def run(ctx):
             p = c19.make_prog(ctx.rng, b, turn=t)
             p["vol"].pop("rgb", None)
             progs.append(p)
-    res = pc.run_and_judge(ctx, progs, workers=12, chunk=100, label="convert")
+    res = pc.run_and_judge(ctx, progs, workers=16, chunk=130, label="convert")
     nonzero = {}
     nconv = 0
     for p, case, (st, clause, pos) in res:
